@@ -7,16 +7,17 @@ CONSTANTS NMAX, Names, SymSet
 VARIABLES grp, n, sym, pc, ok, out
 vars == <<grp, n, sym, pc, ok, out>>
 AllNames == GroupNames
+GT == TLCEval([nm \in Names |-> GroupOf(nm)])       \* the groups of this model, generated once
 Init == /\ grp \in Names /\ n \in (1..NMAX) \X (1..NMAX) \X (1..NMAX) /\ sym \in SymSet
         /\ pc = "in" /\ ok = FALSE /\ out = <<>>
 (* Grid(system, NKdiv = n, NKFFT = 1) raises unless the group maps the grid to itself; then get_K_list(use_symmetry) *)
 Call == /\ pc = "in" /\ pc' = "done"
-        /\ ok' = Compatible(n, GroupOf(grp))
-        /\ out' = IF Compatible(n, GroupOf(grp)) THEN IrreducibleList(n, GroupOf(grp), sym) ELSE <<>>
+        /\ ok' = Compatible(n, GT[grp])
+        /\ out' = IF Compatible(n, GT[grp]) THEN IrreducibleList(n, GT[grp], sym) ELSE <<>>
         /\ UNCHANGED <<grp, n, sym>>
 Next == Call
 Spec == Init /\ [][Next]_vars
-GEff == IF sym THEN GroupOf(grp) ELSE {Id3}
+GEff == IF sym THEN GT[grp] ELSE {Id3}
 Good == pc = "done" /\ ok
 NonNegative     == Good => WeightsNonNegative(out)
 SumToOne        == Good => WeightsSumToOne(out, n)
